@@ -1,13 +1,85 @@
-(** C01 -- adjoint identity.  (extended below as LinAlg/AdjCalc.v grows) *)
-From Coq Require Import List Bool QArith Qcanon.
-From SV Require Import LinAlg.Mat LinAlg.RQ LinAlg.RelCheck.
+(** C01 -- adjoint identity <A x, y> = <x, A^H y> for every linear operator. *)
+From Coq Require Import List Bool QArith Qcanon Reals.
+From SV Require Import Base.InnerSpace LinAlg.Mat LinAlg.RQ LinAlg.CQ LinAlg.RelCheck LinAlg.AdjCalc LinAlg.CInst LinAlg.MExpr.
+Import ListNotations.
 
-(** If the matrix extracted from the adjoint is the transpose of the matrix extracted from the
-    operator (realified spaces, so this is the conjugate transpose for complex operators and the
-    Re<.,.> adjoint for real-to-complex ones), the adjoint identity holds for ALL x, y. *)
+(** (1) Matrix of the adjoint = transpose of the matrix of the operator (realified spaces: this is
+    the conjugate transpose for complex operators and the Re<.,.> adjoint for real-to-complex ones)
+    => the adjoint identity holds for ALL x, y.  The hypothesis is what the harness evaluates by
+    vm_compute on the matrices extracted from the implementation at each configuration. *)
 Theorem C01_matrix_relation_gives_adjoint_identity :
   forall m n sr sc M N,
     rel_ok (0, m, n, sr, sc, None, M, N)%nat = true ->
     forall x y, length x = n -> length y = m -> r_dot (r_mv M x) y = r_dot x (r_mv N y).
 Proof. exact rel_ok_adjoint_identity. Qed.
 Print Assumptions C01_matrix_relation_gives_adjoint_identity.
+
+(** (2) Sesquilinear form: for every commutative ring with involution, <M x, y> = <x, M^H y>. *)
+Theorem C01_conjugate_transpose_is_adjoint :
+  forall (K : Type) (r0 r1 : K) (radd rmul rsub : K -> K -> K) (ropp : K -> K),
+    ring_theory r0 r1 radd rmul rsub ropp eq ->
+  forall cj : K -> K,
+    (forall a b, cj (radd a b) = radd (cj a) (cj b)) ->
+    (forall a b, cj (rmul a b) = rmul (cj a) (cj b)) ->
+    (forall a, cj (cj a) = a) -> cj r0 = r0 ->
+  forall m n (M : mat K) x y, wf K m n M -> length x = n -> length y = m ->
+    cdot K r0 radd rmul cj (mv K r0 radd rmul M x) y =
+    cdot K r0 radd rmul cj x (mv K r0 radd rmul (mH K cj n M) y).
+Proof. exact cdot_mv_adjoint. Qed.
+Print Assumptions C01_conjugate_transpose_is_adjoint.
+
+(** (3) The closures created by + - scalar* / @ .T .H .conj() .gram_op (scico/linop/_linop.py)
+    preserve "linear, complex-linear, adjoint pair"; hence every expression tree over good leaves
+    (any depth, any mix) satisfies the adjoint identity for all x, y. *)
+Theorem C01_expression_trees_have_true_adjoints :
+  forall X Y (e : lexpr X Y), leaves_good e ->
+    forall (x : @E (@csp X)) (y : @E (@csp Y)), ip (fwd (denote e) x) y = ip x (adj (denote e) y).
+Proof. exact expr_adjoint_identity. Qed.
+Print Assumptions C01_expression_trees_have_true_adjoints.
+
+Theorem C01_combinators_preserve_adjointness :
+  (forall X Y (A B : Op X Y), Good A -> Good B -> Good (op_add A B)) /\
+  (forall X Y (A B : Op X Y), Good A -> Good B -> Good (op_sub A B)) /\
+  (forall X Y a b (A : Op X Y), Good A -> Good (op_scale a b A)) /\
+  (forall X Y Z (A : Op Y Z) (B : Op X Y), Good A -> Good B -> Good (op_comp A B)) /\
+  (forall X Y (A : Op X Y), Good A -> Good (op_H A)) /\
+  (forall X Y (A : Op X Y), Good A -> Good (op_T A)) /\
+  (forall X Y (A : Op X Y), Good A -> Good (op_conj A)) /\
+  (forall X Y (A : Op X Y), Good A -> Good (op_gram A)).
+Proof.
+  refine (conj _ (conj _ (conj _ (conj _ (conj _ (conj _ (conj _ _))))))).
+  - intros; now apply good_add.
+  - intros; now apply good_sub.
+  - intros; now apply good_scale.
+  - intros; now apply good_comp.
+  - intros; now apply good_H.
+  - intros; now apply good_T.
+  - intros; now apply good_conj.
+  - intros; now apply good_gram.
+Qed.
+Print Assumptions C01_combinators_preserve_adjointness.
+
+(** (4) for real operators (commuting with conjugation) transpose and adjoint coincide *)
+Theorem C01_real_transpose_is_adjoint :
+  forall X Y (A : Op X Y), (forall y, adj A (Cj y) = Cj (adj A y)) ->
+    forall y, fwd (op_T A) y = fwd (op_H A) y.
+Proof. exact @T_eq_H_real. Qed.
+Print Assumptions C01_real_transpose_is_adjoint.
+
+(** (5) hand-written adjoint of a diagonal operator: multiplication by the conjugate *)
+Theorem C01_diagonal_adjoint :
+  forall (K : Type) (r0 r1 : K) (radd rmul rsub : K -> K -> K) (ropp : K -> K),
+    ring_theory r0 r1 radd rmul rsub ropp eq ->
+  forall cj : K -> K, (forall a b, cj (rmul a b) = rmul (cj a) (cj b)) -> (forall a, cj (cj a) = a) ->
+  forall d x y, cdot K r0 radd rmul cj (vmul K rmul d x) y = cdot K r0 radd rmul cj x (vmul K rmul (vconj K cj d) y).
+Proof. exact diag_adjoint. Qed.
+Print Assumptions C01_diagonal_adjoint.
+
+(** non-vacuity *)
+Example C01_good_leaf_exists : Good (mulc 1 2).
+Proof. apply mulc_good. Qed.
+Example C01_matrix_example :
+  rel_ok (0%nat, 2%nat, 3%nat, 2%nat, 3%nat, None,
+          [[qc 1; qc 2; qc 0]; [qc (-1); qc 0; qc (1#2)]],
+          [[qc 1; qc (-1)]; [qc 2; qc 0]; [qc 0; qc (1#2)]]) = true.
+Proof. vm_compute. reflexivity. Qed.
